@@ -32,3 +32,11 @@ add("C04", "exploration",
     "The 1000-entry window is taken from the property text; IDs of earlier cases still occupy the agent's LRU (they are older, so they "
     "are evicted first). app/store's own listing is exercised by C19, not here.",
     "property-based testing (rapid): generated list-reply histories against a counting model; concurrent pollers with a multiset oracle", "3/C04")
+add("C05", "exploration",
+    "Generated chunk-size/pause vectors (1 B .. 4 MiB, 1-50 chunks, chunked and Content-Length framing) are produced by a scripted backend "
+    "in lock-step with a fake proxy that incrementally decodes the agent's upload: chunk i+1 is only produced once every byte of chunk i "
+    "was observed at the proxy. A chunk withheld for 5 s while the producer is idle and delivered only after the producer is released "
+    "is a confirmed violation; the reassembled body is also compared. 'Bounded time' is checked against that generous bound only.",
+    "Normal relay latency is milliseconds (two orders of magnitude below the bound). A stall without confirmation is reported as "
+    "inconclusive, never as a violation.",
+    "property-based testing (rapid): generated chunk vectors, lock-step progress oracle with release-and-confirm", "3/C05")
